@@ -84,6 +84,11 @@ class Run:
     def map(self, func_name, cases, chunk=None):
         if chunk is None:
             chunk = max(1, min(16, len(cases) // (pool.N_WORKERS * 4) or 1))
+        if not getattr(self, "_grace_given", False):
+            # generating the case list of a thorough tier takes minutes for the largest families: a time cap always leaves the
+            # execution phase at least one minute (the run is then reported as capped, not as vacuous)
+            self._grace_given = True
+            self.deadline = max(self.deadline, time.time() + 60.0)
         stop_if = None
         if os.environ.get("VERIF_STOP_AT_FIRST"):   # validation of seeded changes only: stop at the first violation that is not a known finding
             def stop_if(r):
